@@ -7,6 +7,7 @@ import ast
 from ..context import Ctx
 from ..loader import AnalysisError
 from ..paths import show
+from ..resolve import own_nodes
 
 # special methods that no rule's reading of the code can be affected by
 _HARMLESS = {"__init__", "__new__", "__post_init__", "__repr__", "__sizeof__", "__del__"}
@@ -87,4 +88,103 @@ def rule_one_shot(ctx: Ctx):
                    findings_elsewhere=len(found))
 
 
-COMMON_RULES = [rule_one_shot, rule_implicit_protocol]
+_MUTATORS = {"append", "remove", "insert", "pop", "clear", "extend", "add", "discard", "popitem", "popleft", "appendleft", "sort", "reverse"}
+_SNAPSHOTS = {"list", "tuple", "sorted", "set", "frozenset", "dict", "copy", "copy.copy", "reversed"}
+
+
+def _self_containers_mutated(fnode) -> set:
+    """Names F such that the function body calls `self.F.<mutator>(...)`, deletes or stores `self.F[...]`."""
+    out = set()
+    for n in ast.walk(fnode):
+        t = None
+        if isinstance(n, ast.Call) and isinstance(n.func, ast.Attribute) and n.func.attr in _MUTATORS:
+            t = n.func.value
+        elif isinstance(n, ast.Subscript) and isinstance(n.ctx, (ast.Store, ast.Del)):
+            t = n.value
+        if isinstance(t, ast.Attribute) and isinstance(t.value, ast.Name) and t.value.id == "self":
+            out.add(t.attr)
+    return out
+
+
+def rule_live_iteration(ctx: Ctx):
+    """<prop>.liveiter: in the code this property's rules read, no loop removes from / appends to the very container it is walking
+    (directly, or through a method of a package class that mutates the field its `__iter__` walks): CPython's list iterator then
+    skips or repeats elements, so "for every element" - which is how the rules read a `for` - is no longer what runs. A mutation
+    that is the last thing the loop does (followed by break/return) and loops over a snapshot (`list(x)`, `tuple(x)`) are fine."""
+    from ..loader import norm_stmt
+    from ..paths import show
+    from .c03 import callgraph
+
+    rule = f"{ctx.prop}.liveiter"
+    analysed = [f for f in ctx.p.all_functions() if f.key in ctx.rep.functions_analysed]
+    scope = callgraph(ctx).reachable(analysed, hows=("typed", "prop", "closure"))
+    # package classes: which fields does __iter__ walk, which methods mutate them
+    iter_fields = {}
+    for c in ctx.p.classes.values():
+        for it in c.methods.get("__iter__", []):
+            fs = {n.attr for n in ast.walk(it.node) if isinstance(n, ast.Attribute) and isinstance(n.value, ast.Name) and n.value.id == "self"}
+            iter_fields[c.name] = fs
+    mutating_methods = {}
+    for c in ctx.p.classes.values():
+        fs = iter_fields.get(c.name) or set()
+        for b in ctx.p.mro(c) if hasattr(ctx.p, "mro") else []:
+            fs = fs | (iter_fields.get(b.name) or set())
+        if not fs:
+            continue
+        for nm, ms in c.methods.items():
+            for m in ms:
+                if nm not in ("__init__", "__new__") and _self_containers_mutated(m.node) & fs:
+                    mutating_methods.setdefault(nm, set()).add(c.name)
+    n_loops = n_bad = 0
+    for fn in sorted(scope, key=lambda f: f.key):
+        if isinstance(fn.node, ast.Lambda):
+            continue
+        for loop in own_nodes(fn.node):
+            if not isinstance(loop, (ast.For, ast.AsyncFor)):
+                continue
+            it = loop.iter
+            if isinstance(it, ast.Call) and show(it.func) in _SNAPSHOTS:
+                continue
+            if isinstance(it, ast.Call) and isinstance(it.func, ast.Attribute) and it.func.attr in ("items", "keys", "values") and not it.args:
+                base = show(it.func.value)
+            else:
+                base = show(it)
+            if not isinstance(it, (ast.Name, ast.Attribute, ast.Call)) or (isinstance(it, ast.Call) and base == show(it)):
+                continue
+            n_loops += 1
+
+            def scan(stmts):
+                nonlocal n_bad
+                for i, st in enumerate(stmts):
+                    nxt = stmts[i + 1] if i + 1 < len(stmts) else None
+                    last_before_exit = isinstance(nxt, (ast.Break, ast.Return)) or (nxt is None and False)
+                    for x in ast.walk(st) if not isinstance(st, (ast.If, ast.For, ast.While, ast.Try, ast.With)) else []:
+                        if isinstance(x, ast.Call) and isinstance(x.func, ast.Attribute) and show(x.func.value) == base:
+                            m = x.func.attr
+                            direct = m in _MUTATORS or m in ("update", "setdefault", "__delitem__")
+                            tys = ctx.r.typeof(x.func.value, fn, ())
+                            via = {t for t in mutating_methods.get(m, set()) if t in tys or not tys}
+                            if (direct and not (tys & set(ctx.p.classes))) or via:
+                                if last_before_exit:
+                                    continue
+                                n_bad += 1
+                                ctx.rep.violation(rule, fn.loc(x), f"{fn.qualname}: the loop over `{base}` calls `{show(x)[:70]}`, which changes the "
+                                                  "container being walked: elements are skipped or visited twice", fn.key, norm_stmt(st))
+                        elif isinstance(x, ast.Delete) and any(isinstance(t, ast.Subscript) and show(t.value) == base for t in x.targets):
+                            if not last_before_exit:
+                                n_bad += 1
+                                ctx.rep.violation(rule, fn.loc(x), f"{fn.qualname}: the loop over `{base}` deletes from it", fn.key, norm_stmt(st))
+                    for fld in ("body", "orelse", "finalbody"):
+                        sub = getattr(st, fld, None)
+                        if isinstance(sub, list) and sub and isinstance(sub[0], ast.stmt) and not isinstance(st, (ast.FunctionDef, ast.AsyncFunctionDef, ast.ClassDef)):
+                            scan(sub)
+                    for h in getattr(st, "handlers", []) or []:
+                        scan(h.body)
+
+            scan(loop.body)
+    if not n_bad:
+        ctx.rep.ok(rule, "package", "no loop mutates the container it walks in the code the rules read", loops_examined=n_loops,
+                   functions_in_scope=len(scope))
+
+
+COMMON_RULES = [rule_one_shot, rule_implicit_protocol, rule_live_iteration]
